@@ -302,6 +302,51 @@ func Mutants(s *Schema, perOp int) []Mutant {
 				return true
 			})
 		}
+		// the type rules of fields hold in the inline request and response field lists of methods too
+		{
+			var sub string
+			for _, x := range s.Pkgs[st.pi].Defs() {
+				if x.Kind == DSubservice {
+					sub = x.Name
+				}
+			}
+			for _, where := range []string{"request", "response"} {
+				where := where
+				put := func(d *Def, name string, fields []Field) {
+					m := Method{Name: name}
+					if where == "request" {
+						m.InFields = fields
+					} else {
+						m.InFields = []Field{{"id", scalarT("int64"), 1}}
+						m.HasOut = true
+						m.OutFields = fields
+					}
+					d.Methods = append(d.Methods, m)
+				}
+				if sub != "" {
+					add("service-typed-field-in-"+where+"-list", st, []string{sub, "svc_field", "bad_fields"}, func(c *Schema, d *Def) bool {
+						put(d, "bad_fields", []Field{{"ok", scalarT("bool"), 1}, {"svc_field", &Type{Kind: TRef, Name: sub}, 2}})
+						return true
+					})
+					add("service-typed-list-element-in-"+where+"-list", st, []string{sub, "svc_list", "bad_fields"}, func(c *Schema, d *Def) bool {
+						put(d, "bad_fields", []Field{{"svc_list", &Type{Kind: TList, Elem: &Type{Kind: TRef, Name: sub}}, 1}})
+						return true
+					})
+				}
+				add("list-of-any-in-"+where+"-list", st, []string{"any_list", "bad_fields"}, func(c *Schema, d *Def) bool {
+					put(d, "bad_fields", []Field{{"any_list", &Type{Kind: TList, Elem: &Type{Kind: TAny, Name: "any"}}, 1}})
+					return true
+				})
+				add("duplicate-tag-in-"+where+"-list", st, []string{"dup_b", "bad_fields", "7"}, func(c *Schema, d *Def) bool {
+					put(d, "bad_fields", []Field{{"dup_a", scalarT("int32"), 7}, {"dup_b", scalarT("int32"), 7}})
+					return true
+				})
+				add("unknown-type-in-"+where+"-list", st, []string{"NoSuchType", "bad_fields"}, func(c *Schema, d *Def) bool {
+					put(d, "bad_fields", []Field{{"x", &Type{Kind: TRef, Name: "NoSuchType"}, 1}})
+					return true
+				})
+			}
+		}
 		add("input-single-scalar", st, []string{"bad_input"}, func(c *Schema, d *Def) bool {
 			d.Methods = append(d.Methods, Method{Name: "bad_input", InType: scalarT("int32")})
 			return true
